@@ -54,7 +54,8 @@ MacSpecs(d, rich) ==
   IN {[params |-> <<>>, names |-> <<>>, call |-> <<>>],
       [params |-> <<<<a>>>>, names |-> <<a>>, call |-> <<N(7)>>],
       [params |-> <<<<a>>, <<b, "=", "9">>>>, names |-> <<a, b>>, call |-> <<N(7)>>],
-      [params |-> <<<<a>>, <<b, "=", "9">>>>, names |-> <<a, b>>, call |-> <<<<>>, N(8)>>]}
+      [params |-> <<<<a>>, <<b, "=", "9">>>>, names |-> <<a, b>>, call |-> <<<<>>, N(8)>>],
+      [params |-> <<<<a>>, <<b, "=", "9">>>>, names |-> <<a, b>>, call |-> <<N(7), <<>>, N(6)>>]}
      \cup (IF rich
            THEN {[params |-> <<<<a>>, <<b, "=", "9">>>>, names |-> <<a, b>>, call |-> <<<<b, "=", "3">>>>],
                  [params |-> <<<<a>>, <<b, "=", "9">>>>, names |-> <<a, b>>, call |-> <<N(1), N(2), N(3)>>],
@@ -91,13 +92,14 @@ Params(n) == [i \in 1..n |-> <<P(i)>>]
 ArgShape(shape, k, n) ==
   CASE shape = "pos"     -> [i \in 1..k |-> N(10 + i)]
     [] shape = "holes"   -> [i \in 1..k |-> IF i % 2 = 1 THEN <<>> ELSE N(10 + i)]
+    [] shape = "dholes"  -> [i \in 1..k |-> IF i % 2 = 0 /\ i < k THEN <<>> ELSE N(10 + i)]        \* empty where a default exists
     [] shape = "key"     -> [i \in 1..Min(k, n) |-> <<P(n + 1 - i), "=">> \o N(20 + i)]           \* keywords, reversed order
     [] shape = "mixed"   -> [i \in 1..Min(k, n) |-> IF i <= k \div 2 THEN N(10 + i) ELSE <<P(i), "=">> \o N(20 + i)]
     [] shape = "keyempty"-> [i \in 1..Min(k, n) |-> <<P(i), "=">>]
     [] shape = "expr"    -> [i \in 1..k |-> <<"G1", "+", ToString(i)>>]
     [] shape = "names"   -> [i \in 1..k |-> <<P(((i) % Max(n, 1)) + 1)>>]                          \* arguments spelled like other parameters
     [] OTHER             -> <<>>
-Shapes == {"pos", "holes", "key", "mixed", "keyempty", "expr", "names"}
+Shapes == {"pos", "holes", "dholes", "key", "mixed", "keyempty", "expr", "names"}
 
 \* body: per listed parameter a guarded reference (IFNB), plain and in \name\ form; ARGCOUNT on request
 BindProg(n, shape, k, refs, cnt) ==
